@@ -24,6 +24,8 @@ def instances(tier, rng):
                  {"opt": {"optimize_with_guessed_weights": True}},
                  {"opt": {"lowerbound_k": 1, "optimize_with_greedy": False, "optimize_with_flow_safe_paths": False}},
                  {"opt": {"use_subgraph_scanning_lowerbound": True}},
+                 {"opt": {"use_subgraph_scanning_lowerbound": True}, "scan_size": 2},      # a window small enough to scan
+                 {"opt": {"use_subgraph_scanning_lowerbound": True, "optimize_with_greedy": False}, "scan_size": rng.choice([1, 2, 3])},
                  {"mode": "node", "opt": {"optimize_with_greedy": False}}]
         es = C.route_edges(rng.choice(u["proutes"]))
         extra.append({"cons": [es[:2]]})
@@ -36,6 +38,12 @@ def instances(tier, rng):
             extra.append({"ign": [list(rng.choice(u["edges"]))]})
         extra.append({"mode": "node", "ign": [rng.choice(u["nodes"])]})
         always = []
+        if len(u["nodes"]) >= 4:
+            # scanning windows and constraints that straddle a window boundary, covered to a fraction
+            pe = C.route_edges(max(u["proutes"], key=len))
+            if len(pe) >= 2:
+                always.append({"opt": {"use_subgraph_scanning_lowerbound": True}, "scan_size": rng.choice([2, 3]),
+                               "cons": [pe], "cov": rng.choice([[1, 2], [3, 5], [2, 3]])})
         if len(u["edges"]) >= 3:
             # larger ignore sets (any subset keeps the planted decomposition admissible); in particular everything off one
             # planted route, so that the ignored part carries flow values the non-ignored part does not have
@@ -65,6 +73,20 @@ def instances(tier, rng):
                 elif k != "mode":
                     r[k] = v
             insts.append(r)
+    # subgraph scanning with small windows on the DAG motifs, a constraint crossing the planted routes covered to a fraction:
+    # a window sees only part of the constraint, and what it concludes must stay a LOWER bound
+    for u in C.motifs()[0]:
+        for p in C.crossing_routes(u)[: (2 if quick else 6)]:
+            es = C.route_edges(p)
+            for size in ((2, 4) if quick else (1, 2, 3, 4, 5)):
+                r = C.base(u, "MinFlowDecomp")
+                r["wt"] = "int"
+                r["expect_solved"] = True
+                r["cons"] = [es]
+                r["cov"] = rng.choice([[1, 2], [3, 5], [2, 3]])
+                r["opt"] = {"use_subgraph_scanning_lowerbound": True}
+                r["scan_size"] = size
+                insts.append(r)
     return C.with_ids(insts)
 
 
